@@ -398,7 +398,7 @@ def check_error_absorbed(ctx, inst, body, call_nids, err_local_name):
             v = A.tracer(body, transparent=False).node_value(d)
             if v.k == "agg" and (v.extra or "").endswith("Option::Some"):
                 sets.append(d)
-    already = A.pred_edges(body, lambda e: e.k == "call" and path_matches(e.extra, "Option::is_none") and err_local_name in _names(body, e), "false")
+    already = A.pred_edges(body, lambda e: e.k == "local" and body.local_name(e.extra) == err_local_name, "Some")
     nexts = R.call("Iterator::next")(body)
     for (sw, label) in edges:
         tgt = [s for (s, l) in body.nodes[sw].succ if l == label]
